@@ -50,3 +50,25 @@ def runHookLine (line : String) : List String × (TextStats → TextStats) :=
   | _ => (["V ? ? PARSE op=0 H line"], fun s => s)
 
 end Gmars.Driver
+
+namespace Gmars.Driver
+
+/-- `Y <id> <tag> <desc> | <a> ## <b>`: two observations that must be equal (C14) -/
+def runPairLine (line : String) : List String × (TextStats → TextStats) :=
+  match line.splitOn " | " with
+  | [req, resp] =>
+    let toks := (req.splitOn " ").filter (· != "")
+    match toks, resp.splitOn " ## " with
+    | ("Y" :: id :: tag :: desc), [a, b] =>
+      let d := " ".intercalate desc
+      if tag == "race" then
+        ([s!"V {id} conc PROP op=0 C14 the race detector reports a data race: {(String.ofList (toStr (unhex b.trimAscii.toString))).take 300}"],
+         fun s => { s with cases := s.cases + 1 })
+      else if a.trimAscii.toString != b.trimAscii.toString then
+        ([s!"V {id} conc PROP op=0 C14 {tag} {d}: result differs from the sequential / reference result"],
+         fun s => { s with cases := s.cases + 1 })
+      else ([s!"V {id} conc OK ops=1 nt=1"], fun s => { s with cases := s.cases + 1, nontrivial := s.nontrivial + 1 })
+    | _, _ => (["V ? conc PARSE op=0 Y line"], fun s => s)
+  | _ => (["V ? conc PARSE op=0 Y line"], fun s => s)
+
+end Gmars.Driver
